@@ -416,6 +416,14 @@ def covering_sample(items, limit=None, seed=0):
 
 
 def report_violation(out, sc, a, b, it, prop_kind):
+    if it.dims.get("stream") == "value":
+        out.violations.append({"kind": prop_kind, "what": f"`{it.field}` = {it.dims['value']} is only a near-miss of the literal {it.dims['place']!r}, "
+                               f"but it is not answered like the neutral value: {a.out[:200].decode('utf-8', 'replace')!r} vs "
+                               f"{b.out[:200].decode('utf-8', 'replace')!r}", **H.describe(a, sc), "dimensions": it.dims,
+                               "twin_case": b.to_json(), "expect": it.expect,
+                               "with_neutral_value": {"stdin": b.data.decode("utf-8", "replace"), "stdout": b.out[:400].decode("utf-8", "replace"), "exit": b.rc},
+                               "signature_text": f"near-miss-value-honoured | {it.field} | {it.dims['place']}"})
+        return
     what = (f"a `{it.field}` key that the host did not write ({it.dims['place']}, value {it.dims['value']}; top level: {it.dims['top']}) "
             f"changes the answer: with it {a.out[:200].decode('utf-8', 'replace')!r}, without it {b.out[:200].decode('utf-8', 'replace')!r}"
             if it.expect == "twin" else
@@ -462,18 +470,22 @@ def run_placement(sc: H.Scratch, out, tier, kind, hm=None, sample_limit=90, tag=
     covering sample as real processes (decoy and twin), the host_view tie.  Returns the sample's decoy Cases (already run,
     `.place` = the Item, `.place_twin` = the finished twin Case) so that the caller can add its own oracle and tie them to
     Model/Hook.v main, and the list of (twin text, flags, env, stdout) of decoy-free payloads that were answered."""
+    wd, pay = sc.proj(None), sc.proj(P_PAY)
+    items = build(wd, pay, tier, **build_kw)
+    return run_items(sc, out, kind, items, hm=hm, sample_limit=sample_limit, tag=tag)
+
+
+def run_items(sc: H.Scratch, out, kind, items, hm=None, sample_limit=90, tag="placement_sweep", view=True):
     import time
 
     t0 = time.time()
-    wd, pay = sc.proj(None), sc.proj(P_PAY)
-    items = build(wd, pay, tier, **build_kw)
     results = sweep(sc, items)
     suspects = judge_sweep(items, results)
     for it in items:
         out.evaluations += 1
         for dim in ("field", "place", "top", "host", "forced", "event"):
-            out.count("place_" + dim, it.dims[dim])
-        out.count("place_expect", it.expect)
+            out.count(it.dims.get("stream", "place") + "_" + dim, it.dims[dim])
+        out.count(it.dims.get("stream", "place") + "_expect", it.expect)
     out.distinct.update(lib.sha(["place", t, list(f), list(e)]) for (t, f, e) in results)
     real, not_reproduced = confirm(sc, suspects)
     for a, b, it in real:
@@ -506,10 +518,10 @@ def run_placement(sc: H.Scratch, out, tier, kind, hm=None, sample_limit=90, tag=
     H.run_cases(sc, [c for a in cases for c in (a, a.place_twin)])
     for a in cases:
         b = a.place_twin
-        out.count("place_sample", a.place.dims["place"])
+        out.count(a.place.dims.get("stream", "place") + "_sample", a.place.dims["place"])
         if (a.out, a.rc) != (b.out, b.rc):
             report_violation(out, sc, a, b, a.place, kind)
-    if hm is not None:
+    if hm is not None and view:
         view_tie(hm, out, items)
     twins = {}
     for it in items:
@@ -532,3 +544,147 @@ def replay_pair(sc: H.Scratch, out, replay, kind):
         it = Item(field=replay.get("dimensions", {}).get("field", "?"), dims=replay.get("dimensions", {}), expect=replay.get("expect", "twin"))
         report_violation(out, sc, a, b, it, kind)
     return a
+
+
+# ---------------------------------------------------------------- value families: near-miss spellings of every literal
+def value_spellings(v: str, literals):
+    """Near-miss spellings of a literal VALUE the hook compares a host field with (never a literal itself)."""
+    parts = v.split("_")
+    camel = parts[0] + "".join(p.title() for p in parts[1:])
+    snake = "".join(("_" + ch.lower()) if ch.isupper() and i else ch.lower() for i, ch in enumerate(v))
+    cands = [v.upper(), v.lower(), v.title(), v.swapcase(), v.capitalize(), v[:1].lower() + v[1:], v + " ", " " + v, v + "\n", "\t" + v,
+             v + "\x00", v + "s", v + "_", v + "1", v[:-1], v[1:], "x" + v, v + v, v + "," + v, v.replace("_", ""), v.replace("_", "-"),
+             camel, snake, v[:4], v[:6], v[: len(v) // 2], v + "\u200b", v.replace("a", "\u0430", 1), v.replace("o", "0", 1), "--" + v, v + "=true",
+             '"' + v + '"', v.encode().hex()]
+    out = []
+    for c in cands:
+        if c not in literals and c not in out:
+            out.append(c)
+    return out + [[v], {v: True}, {"mode": v}, [v, v]]
+
+
+def build_values(wd, tier, forced=None):
+    """Host-level fields holding a near-miss of a literal the hook tests for: answered exactly like the neutral value."""
+    forced = forced or (FORCED + (FORCED_ENV if tier == "thorough" else []))
+    hs = hosts(wd, tier)
+    families = [   # field, literals, neutral value, hosts, usable(spelling)
+        ("permission_mode", list(H.BYPASS), "default", ("claude", "gemini", "cursor", "mcp", "other"), lambda x: True),
+        ("hook_event_name", ["PostToolUse"], "PreToolUse", ("claude", "gemini", "cursor", "mcp", "other"), lambda x: True),
+        # a tool name that is neither a shell tool nor an MCP tool (mcp__ prefix) is not Dippy's business: {} like Read
+        ("tool_name", list(H.SHELL_TOOLS) + ["mcp__ok__x", "mcp__q__y"], "Read", ("claude", "gemini", "mcp"),
+         lambda x: not (isinstance(x, str) and x.startswith("mcp__"))),
+    ]
+    classes = ("allow", "ask", "deny")
+    items = []
+    n = 0
+    for field, literals, neutral, hnames, usable in families:
+        for lit in literals:
+            for sp in value_spellings(lit, literals):
+                if not usable(sp):
+                    continue
+                for hname in hnames:
+                    for cl in (classes if tier == "thorough" else [classes[n % 3]]):
+                        n += 1
+                        base = hs[hname]("pre", cl)
+                        twin = dict(base)
+                        twin[field] = neutral
+                        d = dict(base)
+                        d[field] = sp
+                        for flags, env in forced:
+                            items.append(Item(text=json.dumps(d), twin=json.dumps(twin), expect="twin", flags=flags, env=env, field=field, value=sp,
+                                              label=f"value:{field}:{lit}:{hname}:{cl}",
+                                              dims={"stream": "value", "field": field, "value": json.dumps(sp)[:40], "place": lit, "top": "near-miss",
+                                                    "host": hname, "event": "pre", "class": cl,
+                                                    "forced": " ".join(flags) or ",".join(f"{k}={x}" for k, x in env.items()) or "auto"}))
+    return items
+
+
+def run_values(sc, out, tier, kind, hm=None, sample_limit=40, tag="value_family_sweep", **kw):
+    items = build_values(sc.proj(None), tier, **kw)
+    return run_items(sc, out, kind, items, hm=hm, sample_limit=sample_limit, tag=tag, view=False)
+
+
+# ---------------------------------------------------------------- near-miss spellings of the mode flags / variables (C12)
+def mode_spelling_runs(tier):
+    """-> list of (flags, env, reference flags, reference env, label): argv words and DIPPY_* settings that are only near-misses
+    of a mode flag / a truthy value / a variable name, each with the setting it must be equivalent to."""
+    runs = []
+    flags_all = ["--" + m for m in H.MODES]
+    ok = lambda s: isinstance(s, str) and "\x00" not in s  # noqa: E731 - argv / environ cannot hold NUL
+    for m in H.MODES:
+        for sp in value_spellings("--" + m, flags_all):
+            if ok(sp):
+                runs.append(((sp,), {}, (), {}, f"flag:{m}"))
+        runs.append((("--", "--" + m), {}, ("--" + m,), {}, f"flag-after-dashes:{m}"))   # `in sys.argv`: position is irrelevant
+        runs.append((("x", "--" + m, "y"), {}, ("--" + m,), {}, f"flag-among-words:{m}"))
+    truthy = ["1", "true", "yes"]
+    for i, m in enumerate(H.MODES):
+        var = "DIPPY_" + m.upper()
+        vals = []
+        for lit in truthy:
+            vals += [x for x in value_spellings(lit, truthy) if ok(x)]
+        vals += ["0", "false", "no", "off", "on", "y", "t", "2", "-1", "01", "1.0", "enabled", m, "--" + m]
+        if tier != "thorough" and i != 2:
+            vals = vals[::4]
+        for v in dict.fromkeys(vals):
+            ref = ((), {var: "1"}) if H.truthy_env(v) else ((), {})
+            runs.append(((), {var: v}, ref[0], ref[1], f"env-value:{m}"))
+        for name in (var.lower(), "DIPPY_" + m, var + "S", var.replace("_", "-"), var.replace("_", ""), var + "_MODE", m.upper(), "dippy_" + m,
+                     " " + var, var + " "):
+            runs.append(((), {name: "1"}, (), {}, f"env-name:{m}"))
+        runs.append(((), {"DIPPY_MODE": m}, (), {}, f"env-name:{m}"))
+        runs.append(((), {"MODE": m}, (), {}, f"env-name:{m}"))
+    return runs
+
+
+def run_mode_spellings(sc: H.Scratch, out, tier, kind="hosts"):
+    """Every near-miss setting answers every payload exactly like the setting it is equivalent to (byte for byte)."""
+    import time
+
+    t0 = time.time()
+    wd = sc.proj(None)
+    hs = hosts(wd, "quick")
+    payloads = [json.dumps(hs[h]("pre", cl)) for h in ("claude", "gemini", "cursor", "mcp") for cl in ("allow", "ask")]
+    runs = mode_spelling_runs(tier)
+    items = []
+    for flags, env, rf, re_, label in runs:
+        for t in payloads:
+            items.append(Item(text=t, twin=t, expect="twin", flags=flags, env=env, field="mode", value=None, label="modespell:" + label,
+                              dims={"stream": "modespell", "ref": (rf, re_)}))
+            items.append(Item(text=t, twin=t, expect="twin", flags=rf, env=re_, field="mode", value=None, label="modespell:ref", dims={}))
+    results = sweep(sc, items, workers=6)
+    bad = []
+    for it in items:
+        if not it.dims:
+            continue
+        rf, re_ = it.dims["ref"]
+        got = results[(it.text, it.flags, tuple(sorted(it.env.items())))]
+        want = results[(it.text, rf, tuple(sorted(re_.items())))]
+        out.evaluations += 1
+        out.count("modespell", it.label.split(":")[1])
+        if got != want:
+            bad.append((it, got, want))
+    out.distinct.update(lib.sha(["modespell", t, list(f), list(e)]) for (t, f, e) in results)
+    confirmed = 0
+    if bad:
+        pairs = []
+        for it, _, _ in bad[:16]:
+            rf, re_ = it.dims["ref"]
+            a = H.Case(it.text.encode(), label=it.label, flags=it.flags, env=dict(it.env), user_cfg=CFG)
+            b = H.Case(it.text.encode(), label="modespell:ref", flags=rf, env=dict(re_), user_cfg=CFG)
+            pairs.append((a, b, it))
+        H.run_cases(sc, [c for a, b, _ in pairs for c in (a, b)])
+        for a, b, it in pairs:
+            if (a.out, a.rc) != (b.out, b.rc):
+                confirmed += 1
+                out.violations.append({"kind": kind, "what": f"flags {list(a.flags)} env {a.env} must select the mode exactly as flags {list(b.flags)} env {b.env} "
+                                       f"do (a near-miss of a flag / value / variable name is not the thing itself; a truthy value is): "
+                                       f"{a.out[:200].decode('utf-8', 'replace')!r} vs {b.out[:200].decode('utf-8', 'replace')!r}",
+                                       **H.describe(a, sc), "reference": {"flags": list(b.flags), "env": b.env, "stdout": b.out[:300].decode("utf-8", "replace")},
+                                       "signature_text": f"mode-spelling | {it.label}"})
+        if confirmed < len(pairs):
+            out.disagreements.append({"correspondence": "in-process sweep (hook_sweep_worker.py) <-> bin/dippy-hook process",
+                                      "detail": f"{len(pairs) - confirmed} mode-spelling differences did not show in real processes",
+                                      "flags": list(bad[0][0].flags), "env": bad[0][0].env})
+    out.extra["mode_spelling_sweep"] = {"settings": len(runs), "payloads": len(payloads), "in_process_differences": len(bad),
+                                        "confirmed_by_real_processes": confirmed, "seconds": round(time.time() - t0, 1)}
